@@ -76,11 +76,7 @@ package s2
 
 //@ spec func vcAllAllowed(cu CellUnion, minLevel, levelMod int) bool = forall k int :: 0 <= k && k < len(cu) ==> vcValid(cu[k]) && vcLevelAllowed(cu[k].Level(), minLevel, levelMod)
 
-//@ func (cu *CellUnion) Normalize()
-//@   assumed "sort and merge of complete sibling groups (sort.Slice, in-place compaction: outside the subset); valid cells in, valid cells out"
-//@   requires cu != nil
-//@   modifies *cu
-//@   ensures (forall k int :: 0 <= k && k < len(old(*cu)) ==> vcValid(old(*cu)[k])) ==> (forall k int :: 0 <= k && k < len(*cu) ==> vcValid((*cu)[k]))
+// CellUnion.Normalize: contract in vc_cellunion_verif.go (C11, verified)
 
 //@ func (c *coverer) isCanonical(covering CellUnion) bool
 //@   assumed "read-only scan; its answer only selects the early return"
